@@ -358,6 +358,16 @@ def check(model, rep):
                 'as exhaustive truth tables over the canonical comparison atoms (operators and inclusive ends), proposal '
                 'formulas as canonical terms per case; the StartLimitCurrent root substituted into the torque and current '
                 'laws extracted from dc_motor.py must yield the limit current identically. Clipping/arbitration: C14.')
+    # "whole controlled simulations": what a rule proposes reaches the motor through PWMControl.apply_rules - every rule consulted, the
+    # single proposal applied (clipped), wherever the rule sits in the list and whatever its class.  C14's arbitration rules, re-read
+    from sa.core import Report as _Report
+    from checks import c14 as _c14
+    _dep = _Report('C14')
+    try:
+        _c14.check_shape(model, _dep)
+    except CannotDecide as e:
+        _dep.cannot('C14.shape', 'PWMControl.apply_rules', str(e))
+    rep.absorb(_dep, {'C14.shape': 'C15.dep.arbitration', 'C14.clip': 'C15.dep.arbitration.clip'})
     sxm.POSITIVE_ATOMS.clear()
     sx = SX(model)
     sx.loop_handler = reduction_loop
